@@ -979,22 +979,19 @@ Proof.
   destruct (tnext_ext t1 t2 o H) as [[E1 E2]|[a [b [E1 [E2 E]]]]]; rewrite E1, E2; auto.
 Qed.
 
-Lemma check_outcopies : forall pieces r t rest, readable (t r) = true ->
-  check t (map (fun p => OOutCopy r (fst p) (snd p)) pieces ++ rest) = check t rest.
+Lemma check_items : forall items r t rest, readable (t r) = true ->
+  check t (map (item_op r) items ++ rest) = check t rest.
 Proof.
-  induction pieces as [|p ps IH]; intros r t rest Hrd; simpl; auto.
-  rewrite Hrd. rewrite (check_ext _ (upd t r (t r)) t (upd_id _ t r)). apply IH; assumption.
+  induction items as [|it its IH]; intros r t rest Hrd; simpl; auto.
+  destruct it as [off n|b]; simpl.
+  - rewrite Hrd. rewrite (check_ext _ (upd t r (t r)) t (upd_id _ t r)). apply IH; assumption.
+  - apply IH; assumption.
 Qed.
 
-Lemma check_outlits : forall lits t rest, check t (map OOutLit lits ++ rest) = check t rest.
-Proof. induction lits as [|b bs IH]; intros t rest; simpl; auto. Qed.
-
 Theorem paths_disciplined :
-  (forall req off n resp, disciplined (path_upgrade_protocol req off n resp) = true) /\
-  (forall req pieces resp, disciplined (path_upgrade_extensions req pieces resp) = true) /\
-  (forall req lits resp, disciplined (path_upgrade_negotiate req lits resp) = true) /\
-  (forall hdr pieces, disciplined (path_httpupgrade hdr pieces) = true) /\
-  (forall req resp proto names pieces, disciplined (path_dial req resp proto names pieces) = true) /\
+  (forall req items resp, disciplined (path_upgrade req items resp) = true) /\
+  (forall hdr items, disciplined (path_httpupgrade hdr items) = true) /\
+  (forall req resp items, disciplined (path_dial req resp items) = true) /\
   (forall payload, disciplined (path_handle_close payload) = true) /\
   (forall payload, disciplined (path_read_message payload) = true) /\
   (forall p hdr key, disciplined (path_write_client p hdr key) = true) /\
@@ -1004,10 +1001,9 @@ Theorem paths_disciplined :
   (forall p junk hdr key client, disciplined (path_writer_write_flush p junk hdr key client) = true).
 Proof.
   repeat split; intros; try reflexivity.
-  - unfold disciplined, path_upgrade_extensions. simpl. rewrite check_outcopies; reflexivity.
-  - unfold disciplined, path_upgrade_negotiate. simpl. rewrite check_outlits; reflexivity.
-  - unfold disciplined, path_httpupgrade. simpl. rewrite check_outcopies; reflexivity.
-  - unfold disciplined, path_dial. simpl. rewrite check_outlits. rewrite check_outcopies; reflexivity.
+  - unfold disciplined, path_upgrade. simpl. rewrite check_items; reflexivity.
+  - unfold disciplined, path_httpupgrade. simpl. rewrite check_items; reflexivity.
+  - unfold disciplined, path_dial. simpl. rewrite check_items; reflexivity.
   - destruct client; reflexivity.
 Qed.
 
